@@ -10,7 +10,7 @@ from jaqalpaq.core.register import NamedQubit, Register
 from jaqalpaq.core.algorithm.expand_macros import MacroExpander, GateReplacer
 from jaqalpaq.error import JaqalError
 from contracts_subcircuits import wf_stmt
-from contracts_gates import plain_value
+from contracts_gates import plain_value, wf_param
 
 
 @contract("core.algorithm.expand_macros:filter_float", props=["C04"])
@@ -105,7 +105,9 @@ def wf_body(o) -> bool:
                 and (same(o._iterations, 1) if not o._subcircuit else wf_count(o._iterations))
                 and forall_range(len(o._statements), lambda k: wf_body(o._statements[k])))
     return (type_is(o, GateStatement) and isinstance(o._parameters, dict) and isinstance(o._gate_def, AbstractGate)
-            and forall_keys(o._parameters, lambda k: wf_arg(dict_lookup(o._parameters, k))))
+            and forall_keys(o._parameters, lambda k: wf_arg(dict_lookup(o._parameters, k)))
+            and isinstance(o._gate_def._parameters, list)
+            and forall_range(len(o._gate_def._parameters), lambda k: wf_param(o._gate_def._parameters[k]) and is_str(o._gate_def._parameters[k]._name)))
 
 
 @spec
@@ -171,6 +173,9 @@ class ReplGate:
 
     def ensures_expanded(self, gate, result):
         return expanded(result, self.macros)
+
+    def inv_1(self, gate, new_parameters, _k):
+        return True
 
     raises_only = ("JaqalError",)
 
